@@ -65,6 +65,8 @@ func NewCPTVFileRecorder(config *Config, camera cptvframe.CameraSpec, brand, mod
 	}
 }
 
+const constantRecordingsDir = "constant-recordings"
+
 type CPTVFileRecorder struct {
 	outputDir        string
 	header           cptv.Header
@@ -76,7 +78,7 @@ type CPTVFileRecorder struct {
 }
 
 func (cfr *CPTVFileRecorder) SetAsConstantRecorder() error {
-	folder := path.Join(cfr.outputDir, "/constant-recordings")
+	folder := path.Join(cfr.outputDir, constantRecordingsDir)
 	cfr.outputDir = folder
 	cfr.constantRecorder = true
 	return os.Mkdir(folder, 0755)
@@ -185,6 +187,14 @@ func recordingFinalName(filename string) string {
 }
 
 func deleteTempFiles(directory string) error {
+	// Recordings in progress of the constant recorder live in their own folder.
+	if err := deleteTempFilesIn(path.Join(directory, constantRecordingsDir)); err != nil {
+		return err
+	}
+	return deleteTempFilesIn(directory)
+}
+
+func deleteTempFilesIn(directory string) error {
 	matches, _ := filepath.Glob(filepath.Join(directory, "*."+cptvTempExt))
 	// The CPTV writer keeps the uncompressed frames in "<name>.tmp" until the
 	// recording is closed.
